@@ -42,6 +42,7 @@ type deferredCall struct {
 	args   []Val
 	fnVal  Val
 	instr  ssa.Instruction
+	flag   *cellKey // defer outside the entry block: ghost cell "this defer statement was executed"
 }
 
 type Frame struct {
@@ -128,6 +129,8 @@ type Exec struct {
 	freshRefs       map[string]bool
 	allocLimitTerm  string
 	flagRegs        map[string][]*LValue
+	flagNames       []string          // names of the registered flags (same order as flagRegs["*"])
+	flagSet         map[string]string // flag name -> ghost Bool "given on the line" (after Parse)
 	houdiniCache    map[string]map[string]bool // shared between trial clones
 	hinted          map[string]int             // keys whose cache entry came from the hints file (size of the hinted set)
 	hintPrefix      string
@@ -450,6 +453,17 @@ func (ex *Exec) execFunc(fr *Frame, st *State, reach string) funcResult {
 		fr.regs[p] = fr.params[i]
 	}
 	li := ex.eng.loopInfoFor(fn)
+	// a defer statement outside the entry block (not in a loop) gets a ghost flag,
+	// false until the statement is executed
+	for _, b := range fn.Blocks[1:] {
+		for _, ins := range b.Instrs {
+			if d, ok := ins.(*ssa.Defer); ok {
+				ck := cellKey{fr.id, ex.eng.hiddenAlloc(d)}
+				st.cells[ck] = Val{GS: sBool, L: []string{"false"}}
+				ex.hiddenCells[ck] = types.Typ[types.Bool]
+			}
+		}
+	}
 	in := map[*ssa.BasicBlock][]inEdge{}
 	in[fn.Blocks[0]] = []inEdge{{reach, st}}
 	var rets []retRec
@@ -635,10 +649,23 @@ func (ex *Exec) execInstr(fr *Frame, st *State, reach string, ins ssa.Instructio
 		r := ex.execCall(fr, st, reach, x.Common(), x, x.Pos())
 		fr.regs[x] = r
 	case *ssa.Defer:
-		if x.Block().Index != 0 {
-			panic(unsupported("defer outside the entry block"))
-		}
 		d := deferredCall{common: x.Common(), instr: x}
+		if x.Block().Index != 0 {
+			if ex.eng.loopInfoFor(fr.fn).inLoop(x.Block()) {
+				panic(unsupported("defer inside a loop"))
+			}
+			ck := cellKey{fr.id, ex.eng.hiddenAlloc(x)}
+			st.cells[ck] = Val{GS: sBool, L: []string{"true"}}
+			d.flag = &ck
+			for _, e := range fr.defers {
+				if e.instr == x {
+					d.instr = nil // already registered (re-execution of the block in a trial)
+				}
+			}
+			if d.instr == nil {
+				break
+			}
+		}
 		for _, a := range x.Call.Args {
 			d.args = append(d.args, ex.get(fr, a))
 		}
@@ -651,7 +678,26 @@ func (ex *Exec) execInstr(fr *Frame, st *State, reach string, ins ssa.Instructio
 	case *ssa.RunDefers:
 		for i := len(fr.defers) - 1; i >= 0; i-- {
 			d := fr.defers[i]
-			ex.execCallWith(fr, st, reach, d.common, d.fnVal, d.args, d.instr, d.instr.Pos())
+			if d.flag == nil {
+				ex.execCallWith(fr, st, reach, d.common, d.fnVal, d.args, d.instr, d.instr.Pos())
+				continue
+			}
+			flag := "false"
+			if c, ok := st.cells[*d.flag]; ok {
+				flag = c.L[0]
+			}
+			switch flag {
+			case "false":
+			case "true":
+				ex.execCallWith(fr, st, reach, d.common, d.fnVal, d.args, d.instr, d.instr.Pos())
+			default:
+				// executed on some of the paths that reach this return
+				s2 := st.clone()
+				r2 := ex.sc.define("defer_run", sBool, mkAnd(reach, flag))
+				ex.execCallWith(fr, s2, r2, d.common, d.fnVal, d.args, d.instr, d.instr.Pos())
+				_, merged := ex.mergeStates([]inEdge{{ex.sc.define("defer_skip", sBool, mkAnd(reach, mkNot(flag))), st.clone()}, {r2, s2}}, "defer")
+				*st = *merged
+			}
 		}
 	case *ssa.Extract:
 		t := ex.get(fr, x.Tuple)
